@@ -87,6 +87,12 @@ EXTRA_CASES = [
          src="package a\n\nfunc f() {\n\tv := compute(-offset, +limit, *ptr, &val, !ok, ^mask, <-ch)\n\tuse(v)\n}\n\nfunc g() {\n\tv := compute(offset, limit, *ptr, &val, !ok, ^mask, <-ch)\n\tuse(v)\n}\n"),
     dict(name="extra/binary-continuation", patch="@@\nvar x, y expression\n@@\n total(x +\n y -\n-1)\n+2)\n",
          src="package a\n\nfunc f() {\n\ttotal(a + b - 1)\n\ttotal(a - b - 1)\n}\n"),
+    dict(name="extra/variadics", patch="@@\nvar T identifier\n@@\n type T interface {\n-\tLogf(string, ...any)\n+\tLogf(context.Context, string, ...any)\n \t...\n }\n",
+         src="package a\n\ntype Logger interface {\n\tLogf(string, ...any)\n\tClose()\n}\n\ntype Other interface {\n\tLogf(string, any)\n}\n"),
+    dict(name="extra/variadic-func-type", patch="@@\nvar x identifier\n@@\n-var x func(...int)\n+var x func(int, ...int)\n",
+         src="package a\n\nvar hook func(...int)\n\nvar other func(int)\n"),
+    dict(name="extra/variadic-decl-call", patch="@@\nvar f identifier\n@@\n func f(args ...string) {\n-\told(args...)\n+\tnew(args...)\n }\n",
+         src="package a\n\nfunc wrap(args ...string) {\n\told(args...)\n}\n\nfunc wrap2(args []string) {\n\told(args...)\n}\n"),
     dict(name="extra/leading-elision", patch="@@\n@@\n ...\n-foo()\n+bar()\n",
          src="package a\n\nfunc f() {\n\tfirst()\n\tsecond()\n\tfoo()\n\tlast()\n}\n"),
     dict(name="extra/elision-between", patch="@@\nvar x identifier\n@@\n x := open()\n ...\n-x.close()\n+x.Close()\n",
@@ -253,6 +259,8 @@ def t6_respace(lines, changes, rng):
                 continue
             pre, rest = (ln[0], ln[1:]) if ln[0] in "+- " else ("", ln)
             rest = rest.replace(", ", ",   ").replace(" := ", "  :=  ").replace(" = ", "   =   ").replace(" + ", "  +  ")
+            # a variadic "...T" may be written "... T" (an elision is never followed by a name on its line)
+            rest = re.sub(r"\.\.\.(?=[A-Za-z_*\[])", "... ", rest)
             out[i] = pre + rest
     return out
 
